@@ -387,7 +387,7 @@ class PathModel:
             e = w.find(s)
             if e is None:
                 return Err(io_error('NotFound'))
-            return Ok(mkpath(s))
+            return Ok(mkpath(w.abs(s)))        # absolute, `.`/`..` resolved (the world has no symlinks)
         if name in ('metadata', 'symlink_metadata'):
             w = world(i)
             e = w.find(s)
